@@ -1,3 +1,4 @@
+import AsyncVerif.Proofs.AggTools
 import AsyncVerif.Proofs.KindFreeTools
 import AsyncVerif.Impl.Aggregations
 /-!
@@ -93,6 +94,24 @@ theorem C03_zip_longest (fillv : Val) (srcs : List Nat) (fuel : Nat) : KindFree 
   · exact kf_tryFinally (Std.kf_zipLongestLoop fillv fuel _ _) (kf_closeAll srcs) (closeAll_quiet srcs)
 theorem C03_all (s fuel : Nat) : KindFree (Impl.all s fuel) := kf_scopedIter s (Std.kf_allLoop s fuel)
 theorem C03_any (s fuel : Nat) : KindFree (Impl.any s fuel) := kf_scopedIter s (Std.kf_anyLoop s fuel)
+
+theorem C03_merge (fn : Option Nat) (reverse : Bool) (srcs : List Nat) (fuel : Nat) :
+    KindFree (Impl.merge fn reverse srcs fuel) :=
+  kf_tryFinally (Std.kf_merge fn reverse srcs fuel) (kf_closeAll srcs) (closeAll_quiet srcs)
+theorem C03_sum (start : Option Val) (s fuel : Nat) : KindFree (Impl.sum start s fuel) :=
+  kf_scopedIter s (Std.kf_sumLoop s fuel _)
+theorem C03_min_max (fn : Option Nat) (isMax : Bool) (d : Option Val) (s fuel : Nat) :
+    KindFree (Impl.minmax fn isMax d s fuel) := kf_scopedIter s (Std.kf_minmax fn isMax d s fuel)
+theorem C03_reduce (f : Nat) (ini : Option Val) (s fuel : Nat) : KindFree (Impl.reduce f ini s fuel) :=
+  kf_scopedIter s (Std.kf_reduce f ini s fuel)
+theorem C03_list (s fuel : Nat) : KindFree (Impl.list s fuel) := by
+  unfold Impl.list; kfree [Std.kf_collectAll s fuel]
+theorem C03_tuple (s fuel : Nat) : KindFree (Impl.tuple s fuel) := by
+  unfold Impl.tuple; kfree [Std.kf_collectAll s fuel]
+theorem C03_sorted (fn : Option Nat) (reverse : Bool) (s fuel : Nat) : KindFree (Impl.sorted fn reverse s fuel) := by
+  unfold Impl.sorted; kfree [Std.kf_collectKeyed fn s fuel, kf_liftExc]
+theorem C03_nlargest_nsmallest (largest : Bool) (n : Nat) (fn : Option Nat) (s fuel : Nat) :
+    KindFree (Impl.nBest largest n fn s fuel) := kf_scopedIter s (Std.kf_nBest largest n fn s fuel)
 
 /-! Non-vacuity: the same script as a sync iterator and as an async generator. -/
 private def wk : World :=
